@@ -799,6 +799,14 @@ def one_search(ctx, box, case: Case, W, stable, exhaustive, part="search"):
                                "expected": D, "sig": dict(sig, kind="exception")})
         return None
     success = ans["status"] in ("OPTIMAL", "FEASIBLE")
+    fc = ans.get("feedback_corrupt")
+    if fc is not None and "error" not in fc:
+        ctx.count("feedback_corrupt", "validator %s / search %s" % (fc["validator"], fc["search"]))
+        if fc["search"] and not fc["validator"]:
+            ctx.violations.append({"what": f"priceable was handed its own price system for {ans.get('alloc')} with the payment of voter {fc['deleted'][0]} for "
+                                           f"{fc['deleted'][1]} deleted (sparse payment functions: absent = 0); the validator rejects that system, the fully "
+                                           f"specified call reports success", "case": case.to_json(), "cfg": dict(cfg, feedback="corrupt"), "impl": "success",
+                                   "expected": "failure", "sig": dict(sig, kind="feedback_corrupt")})
     fb = ans.get("feedback")
     if fb is not None:
         ctx.count("feedback_call", fb["status"] if fb["status"] in ("OPTIMAL", "FEASIBLE", "INFEASIBLE") else "other")
